@@ -9,7 +9,7 @@ import traceback
 
 import extract
 from facts import FactBase
-from symex import Engine, inline_all, wrapper_policy
+from symex import Engine, inline_all, wrapper_policy, pure_policy
 
 VERIF = extract.VERIF
 LEVELS = {"C12": "proof"}
@@ -74,6 +74,7 @@ class Ctx:
         self.wrap = Engine(fb, inline=wrapper_policy(fb))
         self.deep = Engine(fb, inline=inline_all)
         self.flat = Engine(fb, inline=None)
+        self.pure = Engine(fb, inline=pure_policy(fb))
 
     def has(self, path):
         return path in self.fb.bodies
